@@ -8,4 +8,4 @@ INVS = ["FinalizedIff", "HighestIsFinalized", "WatermarkDecided", "AncestorsFina
 
 def run(ctx):
     return c07.run(ctx, invs=INVS, rel=P.rel_c08, witnesses=("W_Finalized", "W_Pruned"),
-                   node_rel=lambda a: "fin" in a or "panic" in a, node_sims=["cmp_lag4"])
+                   node_rel=lambda a: "fin" in a or "panic" in a, node_sims=["cmp_lag4"], quick_skip=())
